@@ -621,11 +621,23 @@ def rand_unitary(rng, n):
     return tuple(complex(x) for x in q.flatten())
 
 
+_LAST_ROT = [None]      # reset at the start of every case (replayable)
+
+
 def rand_gate(rng, width, scalars=True, kets=False):
     """ A random spec fitting `width` wires (offset chosen here). """
     for _ in range(50):
         r = rng.random()
-        if r < .06:
+        last = _LAST_ROT[0]
+        if last is not None and rng.random() < .15:
+            # near-twin of an earlier rotation of the same circuit: same kind
+            # and flags, a phase that differs in the 4th-5th significant digit
+            # (prints alike, evaluates differently)
+            s = dict(last)
+            s.pop("offset", None)
+            s["phase"] = last["phase"] + rng.choice([-1, 1]) * rng.uniform(1, 4)\
+                * 1e-4 * max(abs(last["phase"]), .1)
+        elif r < .06:
             n = rng.choice([1, 2, 2])
             s = spec("custom", bits=(n,), value=rand_unitary(rng, n))
         elif r < .22:
@@ -655,6 +667,8 @@ def rand_gate(rng, width, scalars=True, kets=False):
         if k_in > width or width - k_in + k_out > 4:
             continue
         s["offset"] = rng.randint(0, width - k_in)
+        if s["phase"] is not None and isinstance(s["phase"], float):
+            _LAST_ROT[0] = dict(s)
         return s
     return spec("scalar", value=1.5, offset=rng.randint(0, width))
 
@@ -699,6 +713,10 @@ def random_circuit(rng, ctx):
         shape = "layers"
     if circuit is None:
         return
+    rots = [(t["kind"], t["dagger"], t["controlled"], "{:.3g}".format(t["phase"]),
+             t["phase"]) for t in steps if isinstance(t["phase"], float)]
+    if len({r[:4] for r in rots}) < len({r for r in rots}):
+        ctx.count("circuits_with_rotations_that_print_alike_and_differ")
     observed = observe(ctx, "circuit", circuit, steps)
     if observed is None:
         return
@@ -718,6 +736,7 @@ def random_circuit(rng, ctx):
 
 def run_case(rng, ctx):
     _BATCH[0] = ctx.index          # replayable: the batch pattern follows the case
+    _LAST_ROT[0] = None
     kind = ctx.index % 16
     if kind == 0:
         gate_sweep(rng, ctx)
